@@ -221,33 +221,24 @@ def sets(ctx):
             if _is_set_expr(n):
                 n_sets += 1
             par, fld = pm[id(n)]
-            ok = False
+            # a set is consumed order-dependently only by what enumerates it; every other consumer (membership, size, set
+            # algebra, use as a dictionary key or as an argument of a hashing / comparing call ...) sees the set as a whole
+            ok = True
             why = norm(par)[:70] if isinstance(par, ast.AST) else ""
-            if isinstance(par, ast.Compare):
-                ok = True
-            elif isinstance(par, ast.BinOp) and isinstance(par.op, (ast.Sub, ast.BitOr, ast.BitAnd, ast.BitXor)):
-                ok = True      # the enclosing BinOp is itself a set expression and is judged at its own consumer
-            elif isinstance(par, ast.Attribute) and par.attr in ("difference", "issubset", "issuperset", "union", "intersection", "add",
-                                                                  "update", "discard", "isdisjoint", "symmetric_difference"):
-                ok = True
-            elif isinstance(par, ast.Call) and norm(par.func) in ("len", "set", "frozenset", "sorted", "bool"):
-                ok = True
-            elif isinstance(par, ast.Call) and isinstance(par.func, ast.Attribute) and par.func.attr in (
-                    "difference", "issubset", "issuperset", "union", "intersection", "isdisjoint", "symmetric_difference", "update"):
-                ok = True      # argument of a set-algebra method
-            elif isinstance(par, (ast.Assign, ast.NamedExpr, ast.If, ast.BoolOp, ast.UnaryOp)):
-                ok = True
-            elif isinstance(par, ast.Subscript) and fld == "slice":
-                ok = True      # dict key
-            elif isinstance(par, (ast.FormattedValue,)):
-                ok = True
-            elif isinstance(par, ast.Call) and norm(par.func) == "list":
-                # list(set) only inside a raise message
+            ORDERED = ("list", "tuple", "next", "iter", "enumerate", "zip", "map", "reversed", "sum", "array", "asarray", "fromiter",
+                       "concatenate", "stack", "join", "fsum", "prod", "cumsum", "accumulate", "chain", "islice")
+            if isinstance(par, ast.Call) and n in par.args and norm(par.func).split(".")[-1] in ORDERED:
                 st = par
                 while not isinstance(st, ast.stmt):
                     st = pm[id(st)][0]
-                ok = isinstance(st, ast.Raise)
-                why = "list(set) outside an error message"
+                ok = isinstance(st, ast.Raise)          # enumerating a set into an error message is harmless
+                why = f"{norm(par.func)}(set) enumerates the set"
+            elif isinstance(par, ast.Starred):
+                ok = False
+                why = "unpacking a hash-ordered set"
+            elif isinstance(par, ast.Attribute) and par.attr == "pop":
+                ok = False
+                why = "set.pop() returns an arbitrary element"
             elif isinstance(par, (ast.For, ast.comprehension)) and fld == "iter":
                 ok = False
                 why = "iteration over a hash-ordered set"
